@@ -1,7 +1,18 @@
 package c06
 
+// Sequential mode: one heartbeat at a time, oracle after every heartbeat on the cache
+// and on storage; storage writes may fail (the heartbeat still succeeds, storage lags)
+// and the RaftCluster may be replaced by a restart / re-election that loads the regions
+// back from storage.
+//
+// Storage model M (key -> value under raft/r/): after an accepted heartbeat the
+// displaced regions are removed and the region is saved when its meta changed; a write
+// that the injector failed is not applied. Storage must equal M after every step, so
+// storage == cache except for the records whose last write failed.
+
 import (
 	"fmt"
+	"sort"
 	"strings"
 
 	"github.com/gogo/protobuf/proto"
@@ -11,31 +22,19 @@ import (
 
 const regionPrefix = "raft/r/"
 
-type kvEntry struct{ key, val string }
+func regionKey(id uint64) string { return fmt.Sprintf("%s%020d", regionPrefix, id) }
 
-// kvDump reads every persisted region meta straight from the kv (keys raft/r/<id>).
-func (f *fixture) kvDump() ([]kvEntry, error) {
+// kvDump reads every persisted region meta straight from the memory kv (keys raft/r/<id>).
+func (f *fixture) kvDump() (map[string]string, error) {
 	keys, vals, err := f.mem.LoadRange(regionPrefix, "raft/r0", 0)
 	if err != nil {
 		return nil, err
 	}
-	out := make([]kvEntry, len(keys))
+	out := make(map[string]string, len(keys))
 	for i := range keys {
-		out[i] = kvEntry{keys[i], vals[i]}
+		out[keys[i]] = vals[i]
 	}
 	return out, nil
-}
-
-func sameKV(a, b []kvEntry) bool {
-	if len(a) != len(b) {
-		return false
-	}
-	for i := range a {
-		if a[i] != b[i] {
-			return false
-		}
-	}
-	return true
 }
 
 func descMeta(b string) string {
@@ -46,34 +45,65 @@ func descMeta(b string) string {
 	return fmt.Sprintf("{id=%d [%q,%q) v%d c%d peers=%d}", m.Id, m.StartKey, m.EndKey, m.GetRegionEpoch().GetVersion(), m.GetRegionEpoch().GetConfVer(), len(m.Peers))
 }
 
-// storageMatchesCache: "displaced regions disappear from storage as well" and "the
-// meta saved whenever it changed": persisted id set and metas == served id set and metas.
-func (f *fixture) storageMatchesCache(cache []entry, dump []kvEntry) error {
-	byKey := map[string]string{}
-	for _, e := range dump {
-		byKey[e.key] = e.val
+func sortedKeys(m map[string]string) []string {
+	ks := make([]string, 0, len(m))
+	for k := range m {
+		ks = append(ks, k)
 	}
-	for _, e := range cache {
-		k := fmt.Sprintf("%s%020d", regionPrefix, e.id)
-		v, ok := byKey[k]
+	sort.Strings(ks)
+	return ks
+}
+
+// storageIs compares storage with the model; lag = keys whose last write failed.
+func (f *fixture) storageIs(model, dump map[string]string, cache []entry, lag map[string]string) error {
+	for _, k := range sortedKeys(model) {
+		v, ok := dump[k]
 		if !ok {
-			return fmt.Errorf("served region %v is not in storage", e)
+			return fmt.Errorf("storage lacks %s, expected %s", strings.TrimPrefix(k, regionPrefix), descMeta(model[k]))
 		}
-		if v != e.meta {
+		if v != model[k] {
+			return fmt.Errorf("storage holds %s under %s, expected %s", descMeta(v), strings.TrimPrefix(k, regionPrefix), descMeta(model[k]))
+		}
+	}
+	for _, k := range sortedKeys(dump) {
+		if _, ok := model[k]; !ok {
+			if _, served := find(cache, idOfKey(k)); !served {
+				return fmt.Errorf("storage still holds %s under %s but the region is not served and no write failed (displaced regions must be deleted from storage)", descMeta(dump[k]), strings.TrimPrefix(k, regionPrefix))
+			}
+			return fmt.Errorf("storage holds %s under %s, expected nothing", descMeta(dump[k]), strings.TrimPrefix(k, regionPrefix))
+		}
+	}
+	// storage == cache except for the records whose last write failed
+	for _, e := range cache {
+		k := regionKey(e.id)
+		if _, lagging := lag[k]; lagging {
+			continue
+		}
+		if v, ok := dump[k]; !ok {
+			return fmt.Errorf("served region %v is not in storage", e)
+		} else if v != e.meta {
 			return fmt.Errorf("storage holds %s for served region %v (meta %s)", descMeta(v), e, descMeta(e.meta))
 		}
-		delete(byKey, k)
-		// and through the storage API
 		var m metapb.Region
-		ok, err := f.storage.LoadRegion(e.id, &m)
-		if err != nil || !ok {
+		if ok, err := f.storage.LoadRegion(e.id, &m); err != nil || !ok {
 			return fmt.Errorf("Storage.LoadRegion(%d) = %v, %v for served region %v", e.id, ok, err, e)
 		}
 	}
-	for k, v := range byKey {
-		return fmt.Errorf("storage still holds %s under %s but the region is not served (displaced regions must be deleted from storage)", descMeta(v), strings.TrimPrefix(k, regionPrefix))
+	for _, k := range sortedKeys(dump) {
+		if _, lagging := lag[k]; lagging {
+			continue
+		}
+		if _, served := find(cache, idOfKey(k)); !served {
+			return fmt.Errorf("storage still holds %s but the region is not served (displaced regions must be deleted from storage)", descMeta(dump[k]))
+		}
 	}
 	return nil
+}
+
+func idOfKey(k string) uint64 {
+	var id uint64
+	fmt.Sscanf(strings.TrimPrefix(k, regionPrefix), "%d", &id)
+	return id
 }
 
 func sameEntries(a, b []entry) (string, bool) {
@@ -88,6 +118,155 @@ func sameEntries(a, b []entry) (string, bool) {
 	return "", true
 }
 
+func sameMap(a, b map[string]string) bool {
+	if len(a) != len(b) {
+		return false
+	}
+	for k, v := range a {
+		if w, ok := b[k]; !ok || w != v {
+			return false
+		}
+	}
+	return true
+}
+
+// rec is a region known to the loader: a stored record or a region of the warm cache.
+type rec struct {
+	id         uint64
+	start, end string
+	ver, conf  uint64
+	meta       string
+	stored     bool
+}
+
+func (r rec) String() string {
+	w := "cached"
+	if r.stored {
+		w = "stored"
+	}
+	return fmt.Sprintf("{%s id=%d [%q,%q) v%d c%d}", w, r.id, r.start, r.end, r.ver, r.conf)
+}
+
+func recOf(val string) (rec, error) {
+	var m metapb.Region
+	if err := proto.Unmarshal([]byte(val), &m); err != nil {
+		return rec{}, err
+	}
+	return rec{id: m.Id, start: string(m.StartKey), end: string(m.EndKey), ver: m.GetRegionEpoch().GetVersion(),
+		conf: m.GetRegionEpoch().GetConfVer(), meta: val, stored: true}, nil
+}
+
+// outranked: may x legitimately lose against some other region the loader knows?
+// Yes iff another id overlaps it with version >= x's (it displaces x or makes x stale),
+// or the same id is known with a newer epoch.
+func outranked(x rec, all []rec) (rec, bool) {
+	for _, z := range all {
+		if z.id == x.id {
+			if z.meta != x.meta && (z.ver > x.ver || z.conf > x.conf) {
+				return z, true
+			}
+			continue
+		}
+		if rangesOverlap(x.start, x.end, z.start, z.end) && z.ver >= x.ver {
+			return z, true
+		}
+	}
+	return rec{}, false
+}
+
+// checkLoad is the oracle for LoadClusterInfo, from the statement's second and third
+// sentences applied to records coming from storage. S0 = served set before (empty on a
+// cold restart), K0/K1 = storage before/after, S1 = served set after (cacheSnap has
+// already established: no overlaps, id map == range tree).
+func checkLoad(cold bool, S0 []entry, K0 map[string]string, S1 []entry, K1 map[string]string, cls *classSet) error {
+	var all []rec
+	for _, e := range S0 {
+		all = append(all, rec{id: e.id, start: e.start, end: e.end, ver: e.ver, conf: e.conf, meta: e.meta})
+	}
+	var stored []rec
+	for _, k := range sortedKeys(K0) {
+		r, err := recOf(K0[k])
+		if err != nil {
+			return fmt.Errorf("harness: undecodable record %s", k)
+		}
+		stored = append(stored, r)
+		all = append(all, r)
+	}
+	// nothing invented: every served region is the one served before or a stored record
+	for _, e := range S1 {
+		if o, ok := find(S0, e.id); ok && o.meta == e.meta {
+			continue
+		}
+		if v, ok := K0[regionKey(e.id)]; ok && v == e.meta {
+			continue
+		}
+		return fmt.Errorf("served region %v (%s) is neither what was served before nor the stored record of that id", e, descMeta(e.meta))
+	}
+	// a served region never goes back / is never pushed out by something older
+	for _, o := range S0 {
+		cur, ok := find(S1, o.id)
+		if ok && cur.ver >= o.ver && cur.conf >= o.conf {
+			continue
+		}
+		just := false
+		for _, z := range stored {
+			if z.id != o.id && z.ver >= o.ver && rangesOverlap(o.start, o.end, z.start, z.end) {
+				just = true
+			}
+		}
+		if !just {
+			got := "nothing"
+			if ok {
+				got = cur.String()
+			}
+			return fmt.Errorf("%v was served before the load, afterwards %s, and no stored record of another id with version >= %d overlaps it", o, got, o.ver)
+		}
+		cls.add("load-displaced-served-region")
+	}
+	// a stored record that is not served lost against something at least as new
+	for _, r := range stored {
+		cur, ok := find(S1, r.id)
+		if ok && cur.meta == r.meta {
+			continue
+		}
+		if _, just := outranked(r, all); !just {
+			got := "nothing"
+			if ok {
+				got = cur.String()
+			}
+			return fmt.Errorf("stored record %v is not served after the load (%s is served for its id) although nothing known overlaps it with version >= %d and its id is not known with a newer epoch", r, got, r.ver)
+		}
+		cls.add("load-dropped-stale-record")
+	}
+	// storage after the load: every remaining record is served as is; a removed record lost likewise
+	for _, k := range sortedKeys(K1) {
+		v0, ok := K0[k]
+		if !ok || v0 != K1[k] {
+			return fmt.Errorf("the load wrote %s under %s", descMeta(K1[k]), strings.TrimPrefix(k, regionPrefix))
+		}
+		cur, served := find(S1, idOfKey(k))
+		if !served || cur.meta != K1[k] {
+			return fmt.Errorf("after the load storage holds %s but that is not what is served for the id", descMeta(K1[k]))
+		}
+	}
+	for _, r := range stored {
+		if _, ok := K1[regionKey(r.id)]; ok {
+			continue
+		}
+		if _, just := outranked(r, all); !just {
+			return fmt.Errorf("the load deleted %v from storage although nothing known overlaps it with version >= %d and its id is not known with a newer epoch", r, r.ver)
+		}
+	}
+	if cold {
+		for _, e := range S1 {
+			if _, ok := K1[regionKey(e.id)]; !ok {
+				return fmt.Errorf("after a cold restart the served region %v is not in storage", e)
+			}
+		}
+	}
+	return nil
+}
+
 func runSeq(c Case) (vkit.Info, error) {
 	var info vkit.Info
 	var cls classSet
@@ -96,20 +275,82 @@ func runSeq(c Case) (vkit.Info, error) {
 	if err != nil {
 		return info, err
 	}
-	defer f.close()
+	defer func() { f.close() }()
+	f.fkv.KeepLog = true
 
-	maxSeen := map[uint64][2]uint64{} // id -> highest (version, conf_ver) ever served
+	maxSeen := map[uint64][2]uint64{} // id -> highest (version, conf_ver) served since the last cold start
 	rejected, displacedN := 0, 0
 
 	S0, err := f.cacheSnap()
 	if err != nil {
 		return info, err
 	}
-	K0, err := f.kvDump()
+	M, err := f.kvDump() // storage model
 	if err != nil {
 		return info, err
 	}
+	lag := map[string]string{} // key -> "save"/"delete": the last write of this record failed
+	armed := 0
 	for step, d := range c.Dels {
+		switch d.K {
+		case "fail":
+			armed = 1 + mod(d.A, 3)
+			continue
+		case "restart":
+			armed = 0
+			cold := d.A%2 == 0
+			name := "warm re-election"
+			if cold {
+				name = "cold restart"
+			}
+			before := S0
+			if cold {
+				before = nil
+			}
+			f.fkv.ResetCounters()
+			if err := f.restart(cold); err != nil {
+				return info, fmt.Errorf("step %d %s: %v", step, name, err)
+			}
+			S1, err := f.cacheSnap()
+			if err != nil {
+				return info, fmt.Errorf("step %d after %s: %v", step, name, err)
+			}
+			K1, err := f.kvDump()
+			if err != nil {
+				return info, err
+			}
+			if err := checkLoad(cold, before, M, S1, K1, &cls); err != nil {
+				return info, fmt.Errorf("step %d %s: %v", step, name, err)
+			}
+			if cold {
+				cls.add("restart-cold")
+				for _, o := range S0 {
+					if cur, ok := find(S1, o.id); ok && (cur.ver < o.ver || cur.conf < o.conf) {
+						// legitimate only because the newer epoch never reached storage (checkLoad: served == stored record)
+						if _, lagging := lag[regionKey(o.id)]; !lagging {
+							return info, fmt.Errorf("step %d %s: %v was served and persisted before, afterwards %v", step, name, o, cur)
+						}
+						cls.add("restart-cold-served-older-after-failed-save")
+					}
+				}
+				maxSeen = map[uint64][2]uint64{}
+			} else {
+				cls.add("restart-warm")
+			}
+			if len(lag) > 0 {
+				cls.add("restart-with-storage-lag")
+			}
+			// from here on: records not in storage are exactly the served regions that lag
+			lag = map[string]string{}
+			for _, e := range S1 {
+				if v, ok := K1[regionKey(e.id)]; !ok || v != e.meta {
+					lag[regionKey(e.id)] = "save"
+				}
+			}
+			S0, M = S1, K1
+			f.fkv.TakeLog()
+			continue
+		}
 		h := f.resolve(d, s.snaps, S0, c.NoTerm)
 		if h == nil {
 			cls.add("fabricated-not-applicable")
@@ -129,7 +370,23 @@ func runSeq(c Case) (vkit.Info, error) {
 		}
 		cls.add("deliver-" + h.Kind)
 
+		f.fkv.TakeLog()
+		if armed > 0 {
+			f.fkv.FailNth(armed)
+		}
 		hbErr := f.rc.VerifProcessRegionHeartbeat(h.region())
+		f.fkv.ResetCounters()
+		wasArmed := armed > 0
+		armed = 0
+		failedKey, failedKind := "", ""
+		for _, ev := range f.fkv.TakeLog() {
+			if ev.Failed {
+				if failedKey != "" {
+					return info, fmt.Errorf("harness: two injected failures in one heartbeat")
+				}
+				failedKey, failedKind = ev.Key, ev.Kind
+			}
+		}
 
 		S1, err := f.cacheSnap()
 		if err != nil {
@@ -140,6 +397,9 @@ func runSeq(c Case) (vkit.Info, error) {
 			return info, err
 		}
 		pre := fmt.Sprintf("step %d heartbeat %v", step, h)
+		if failedKey != "" {
+			pre += fmt.Sprintf(" (storage %s of %s failed)", failedKind, strings.TrimPrefix(failedKey, regionPrefix))
+		}
 
 		if why != "" {
 			// stale => error and nothing changes
@@ -149,14 +409,14 @@ func runSeq(c Case) (vkit.Info, error) {
 			if diff, ok := sameEntries(S0, S1); !ok {
 				return info, fmt.Errorf("%s was rejected (%v) but the cache changed: %s", pre, hbErr, diff)
 			}
-			if !sameKV(K0, K1) {
-				return info, fmt.Errorf("%s was rejected (%v) but storage changed", pre, hbErr)
+			if !sameMap(M, K1) || failedKey != "" {
+				return info, fmt.Errorf("%s was rejected (%v) but storage was written", pre, hbErr)
 			}
 			rejected++
 			cls.add("rejected-" + why)
 			continue
 		}
-		// not stale by the statement's rule: the only other outcome is acceptance
+		// not stale by the statement's rule: the only other outcome is acceptance (also when a storage write fails)
 		if hbErr != nil {
 			return info, fmt.Errorf("%s is not stale against anything cached but was refused: %v", pre, hbErr)
 		}
@@ -178,17 +438,18 @@ func runSeq(c Case) (vkit.Info, error) {
 		}
 		// displaced regions are gone at once, everything else is untouched
 		want := map[uint64]entry{}
-		nDisp := 0
+		var displaced []entry
 		for _, e := range S0 {
 			if e.id == h.ID {
 				continue
 			}
 			if rangesOverlap(h.Start, h.End, e.start, e.end) {
-				nDisp++
+				displaced = append(displaced, e)
 				continue
 			}
 			want[e.id] = e
 		}
+		nDisp := len(displaced)
 		for _, e := range S1 {
 			if e.id == h.ID {
 				continue
@@ -215,8 +476,37 @@ func runSeq(c Case) (vkit.Info, error) {
 		if r := f.rc.GetRegion(h.ID); r != cur.ptr {
 			return info, fmt.Errorf("%s accepted but GetRegion(%d) differs from GetRegions", pre, h.ID)
 		}
-		// storage follows: one heartbeat at a time
-		if err := f.storageMatchesCache(S1, K1); err != nil {
+		// storage follows, one heartbeat at a time: displaced records removed, the region saved when its meta changed
+		for _, e := range displaced {
+			k := regionKey(e.id)
+			if k == failedKey {
+				if _, present := M[k]; present {
+					lag[k] = "delete"
+					cls.add("write-failed-delete")
+				} else {
+					delete(lag, k)
+				}
+				continue
+			}
+			delete(M, k)
+			delete(lag, k)
+		}
+		if !hadOld || old.meta != cur.meta {
+			k := regionKey(h.ID)
+			if k == failedKey {
+				lag[k] = "save"
+				cls.add("write-failed-save")
+			} else {
+				M[k] = cur.meta
+				delete(lag, k)
+			}
+		} else if failedKey == regionKey(h.ID) {
+			return info, fmt.Errorf("%s accepted: the meta did not change but a save was attempted", pre)
+		}
+		if wasArmed && failedKey == "" {
+			cls.add("write-failure-not-hit")
+		}
+		if err := f.storageIs(M, K1, S1, lag); err != nil {
 			return info, fmt.Errorf("%s accepted: %v", pre, err)
 		}
 
@@ -253,7 +543,7 @@ func runSeq(c Case) (vkit.Info, error) {
 			m[1] = cur.conf
 		}
 		maxSeen[h.ID] = m
-		S0, K0 = S1, K1
+		S0 = S1
 	}
 	cls.into(&info)
 	info.NonTrivial = s.splits+s.merges > 0 && rejected > 0 && displacedN > 0
